@@ -25,7 +25,7 @@ fn spec() -> Spec {
             Kind { name: "value", quick: 400_000, thorough: 10_000_000, serial: false },
             Kind { name: "delegation", quick: 100_000, thorough: 2_000_000, serial: false },
         ],
-        rule: "value: non-degenerate robot x stack of depth 1..3 containing at least one Parallelogram (all 30 driven!=coupled pairs round-robin, scalings in [-2,2] incl. 0, +-1, chained couplings where one coupling's coupled joint is another's driven joint) nested with Tool/Base in any order x q: wrapper forward and link poses == reference chain at the joint vector with coupled -= scaling*driven applied sequentially; every answer of the four inverse entry points maps back through the reference forward onto the request (tool point for the 5-DOF variants with axial tools). delegation: Parallelogram over a SpyKinematics: one inner call of the same method, adjusted joints, pose/previous/J6 unchanged. non-trivial = scaling != 0; distinct = hash(robot, stack, q) Workload additions: joints resting at exactly 0.0 / -0.0; postures next to / inside the wrist band (nine answers); previous = generating, generating + 1e-8..1e-4 noise, near, sentinel; solvers built through either constructor.",
+        rule: "value: non-degenerate robot x stack of depth 1..3 containing at least one Parallelogram (all 30 driven!=coupled pairs round-robin, scalings in [-2,2] incl. 0, +-1, chained couplings where one coupling's coupled joint is another's driven joint) nested with Tool/Base in any order x q: wrapper forward and link poses == reference chain at the joint vector with coupled -= scaling*driven applied sequentially; every answer of the four inverse entry points maps back through the reference forward onto the request (tool point for the 5-DOF variants with axial tools). delegation: Parallelogram over a SpyKinematics: one inner call of the same method, adjusted joints, pose/previous/J6 unchanged. non-trivial = scaling != 0; distinct = hash(robot, stack, q) Workload additions: joints resting at exactly 0.0 / -0.0; postures next to / inside the wrist band (nine answers); previous = generating, generating + 1e-8..1e-4 noise, near, sentinel; solvers built through either constructor. Rounds 7-9: a coupled joint a hair inside +-pi with the previous value across the seam; joint vectors beyond half a turn.",
         assumptions: vec!["forward tolerance 1e-11*(1+reach); inverse accuracy 1e-6 m / 1e-6 rad + 1e-9"],
         minimums: vec![("oracle_evals", 5_000_000, 120_000_000), ("stacked_couplings", 100_000, 2_500_000), ("set:pairs", 30, 30)],
     }
@@ -111,7 +111,8 @@ fn value(idx: u64, rng: &mut Rng, mon: &mut Mon) {
     mon.seen("pairs", format!("{}->{}", driven, coupled));
     let sname = stack_name(&layers);
     let kin = build(Arc::new(make_solver(rng, &rp)), &layers);
-    let mut q = if rng.bool(0.3) { joints_resting(rng, PI) } else { joints_uniform(rng, PI) };
+    // (a tenth of the joint vectors reaches beyond half a turn: a non-integer coupling is not periodic in the driven joint)
+    let mut q = match rng.usize(10) { 0..=2 => joints_resting(rng, PI), 3 => joints_uniform(rng, 2.0 * PI), _ => joints_uniform(rng, PI) };
     // a tenth of the postures has the inner robot's model J5 inside or next to the solver's 0.01 degree wrist
     // band (1e-6 .. 3e-4 rad, not exactly singular): the continuation solver may then append a ninth answer
     if rng.bool(0.1) && rp.signs[4] != 0 {
